@@ -13,6 +13,30 @@ use sim_core::driver::{Check, RunOut, Tier, Violation};
 use sim_core::json::{self, J};
 use sim_core::prng::{Hasher64, Rng};
 
+/// (target, transform) of every <use> element of an SVG document, in document order
+fn use_elements(svg: &[u8]) -> Vec<(String, String)> {
+    let text = String::from_utf8_lossy(svg);
+    let mut out = vec![];
+    let mut rest: &str = &text;
+    while let Some(p) = rest.find("<use") {
+        let tail = &rest[p..];
+        let end = match tail.find('>') {
+            Some(e) => e,
+            None => break,
+        };
+        let tag = &tail[..end];
+        rest = &tail[end..];
+        let attr = |name: &str| -> Option<String> {
+            let key = format!(" {}=\"", name);
+            let s = tag.find(&key)? + key.len();
+            let e = tag[s..].find('"')? + s;
+            Some(tag[s..e].to_string())
+        };
+        out.push((attr("href").or_else(|| attr("xlink:href")).unwrap_or_default(), attr("transform").unwrap_or_default()));
+    }
+    out
+}
+
 pub struct C11e3;
 
 fn regenerate(sc: &RepScenario, json: &[u8]) -> Result<(Vec<u8>, String), String> {
@@ -142,7 +166,10 @@ impl Check for C11e3 {
                     if !same_content {
                         out.violate(Violation::new("cli-json-reserialisation-differs", it as u64, format!("schedule {}: reading the written JSON back and writing it again gives other bytes", it)));
                     }
-                    if &svg_again[..] != &sv[..] {
+                    // (what must agree is where things are placed - the <use> elements with their
+                    // targets and transforms, in order -, not the bytes around them: an XML
+                    // declaration, a trailing newline or other packaging is the tool's business)
+                    if &svg_again[..] != &sv[..] && use_elements(&svg_again) != use_elements(sv) {
                         out.violate(Violation::new(
                             "cli-svg-does-not-match-json",
                             it as u64,
